@@ -107,15 +107,18 @@ Record world := mkW {
   w_tog : bool;            (* ActiveFolderToggler: true = folder 0 is active *)
   w_failed : bool;         (* FailedToReplicate *)
   w_logging : bool;        (* LogCommitChanges *)
-  w_logs : list commit }.  (* <active>/commitlogs/*.log, oldest first *)
+  w_logs : list commit;    (* <active>/commitlogs/*.log, oldest first *)
+  w_pcache : N -> option sinfo }. (* L2 cache entries "<passive folder>:<store>" left by CopyToPassiveFolders' sr.Get *)
 
 Definition active (w : world) : side := if w_tog w then w_f0 w else w_f1 w.
 Definition passive (w : world) : side := if w_tog w then w_f1 w else w_f0 w.
 Definition with_sides (w : world) (a p : side) : world :=
-  if w_tog w then mkW a p (w_tog w) (w_failed w) (w_logging w) (w_logs w)
-  else mkW p a (w_tog w) (w_failed w) (w_logging w) (w_logs w).
+  if w_tog w then mkW a p (w_tog w) (w_failed w) (w_logging w) (w_logs w) (w_pcache w)
+  else mkW p a (w_tog w) (w_failed w) (w_logging w) (w_logs w) (w_pcache w).
 Definition with_flags (w : world) (failed logging : bool) (logs : list commit) : world :=
-  mkW (w_f0 w) (w_f1 w) (w_tog w) failed logging logs.
+  mkW (w_f0 w) (w_f1 w) (w_tog w) failed logging logs (w_pcache w).
+Definition with_pcache (w : world) (c : N -> option sinfo) : world :=
+  mkW (w_f0 w) (w_f1 w) (w_tog w) (w_failed w) (w_logging w) (w_logs w) c.
 
 Inductive res := ROk | RErr.
 
@@ -156,13 +159,19 @@ Definition drop_passive (f : faults) (i : nat) (n : N) (p : side) : side * bool 
   (mkSide (fset (s_has p1) n false) (s_info p1) (s_reg p1), true).
 
 (* StoreRepository.CopyToPassiveFolders as written: the store list is copied; then, per listed
-   store, the store info is looked up WITH THE FOLDER TOGGLER FLIPPED, i.e. on the passive side;
-   a store not found there is skipped; one found there gets that (passive) info written back and
-   the active registry segment files copied over. *)
-Definition copy_stores (a p : side) : side :=
+   store, the store info is looked up WITH THE FOLDER TOGGLER FLIPPED, i.e. through
+   GetWithTTL on the passive side: first the L2 cache under the key "<passive folder>:<store>"
+   (seen_info: an entry left there by an earlier reinstate within the cache TTL wins), else the
+   passive storeinfo.txt, which is then cached under that key.  A store not found is skipped; one
+   found gets THAT info written to the passive folder and the active registry segment files copied. *)
+Definition seen_info (pc : N -> option sinfo) (p : side) (n : N) : option sinfo :=
+  match pc n with Some c => Some c | None => s_info p n end.
+Definition copy_stores (pc : N -> option sinfo) (a p : side) : side :=
   mkSide (s_has a)
-         (s_info p)
-         (fun t l => if s_has a t then (if isSome (s_info p t) then s_reg a t l else s_reg p t l) else s_reg p t l).
+         (fun n => if s_has a n then seen_info pc p n else s_info p n)
+         (fun t l => if s_has a t then (if isSome (seen_info pc p t) then s_reg a t l else s_reg p t l) else s_reg p t l).
+Definition copy_cache (pc : N -> option sinfo) (a p : side) : N -> option sinfo :=
+  fun n => if s_has a n then seen_info pc p n else pc n.
 
 (* fastForward: replay each logged commit (store infos, then registry) and delete the log *)
 Fixpoint fast_forward (logs : list commit) (p : side) : side * list commit * bool :=
@@ -206,13 +215,14 @@ Definition step (w : world) (o : op) : world * res :=
   | OReinstate copy_fails =>
       if negb (w_failed w) then (w, RErr) else
       if copy_fails then (with_flags w true true (w_logs w), RErr) else
-      let p1 := copy_stores a p in
+      let p1 := copy_stores (w_pcache w) a p in
+      let pc := copy_cache (w_pcache w) a p in
       let '(p2, logs, ok) := fast_forward (w_logs w) p1 in
-      if ok then (with_flags (with_sides w a p2) false false logs, ROk)
-      else (with_flags (with_sides w a p2) true true logs, RErr)
+      if ok then (with_pcache (with_flags (with_sides w a p2) false false logs) pc, ROk)
+      else (with_pcache (with_flags (with_sides w a p2) true true logs) pc, RErr)
   | OFailover =>
       if w_failed w then (w, ROk)
-      else (mkW (w_f0 w) (w_f1 w) (negb (w_tog w)) true (w_logging w) (w_logs w), ROk)
+      else (mkW (w_f0 w) (w_f1 w) (negb (w_tog w)) true (w_logging w) (w_logs w) (w_pcache w), ROk)
   | OReplaceDrive => (with_sides w a empty_side, ROk)
   end.
 
@@ -222,4 +232,4 @@ Fixpoint run (w : world) (ops : list op) : world * list res :=
   | o :: r => let '(w1, x) := step w o in let '(w2, xs) := run w1 r in (w2, x :: xs)
   end.
 
-Definition empty_world : world := mkW empty_side empty_side true false false [].
+Definition empty_world : world := mkW empty_side empty_side true false false [] (fun _ => None).
